@@ -97,6 +97,9 @@ pub struct MPath {
     pub steps: Vec<Step>,
     /// when set, the whole path is the predicate expression (steps empty)
     pub predicate: Option<MExpr>,
+    /// the path is handed over without its leading `$` element, the AST the parser produces for the Snowflake-style
+    /// spellings (`car.no`, `[1].a`); it selects exactly what the `$`-rooted path selects
+    pub rootless: bool,
 }
 
 fn idx_to_lib(i: &MIdx) -> jp::Index {
@@ -186,6 +189,7 @@ impl MPath {
     pub fn to_lib(&self) -> jp::JsonPath<'static> {
         match &self.predicate {
             Some(e) => jp::JsonPath { paths: vec![jp::Path::Predicate(Box::new(expr_to_lib(e)))] },
+            None if self.rootless => jp::JsonPath { paths: self.steps.iter().map(step_to_lib).collect() },
             None => jp::JsonPath { paths: rooted(false, &self.steps) },
         }
     }
@@ -300,14 +304,14 @@ fn expr_from(j: &J) -> Result<MExpr, String> {
 pub fn mpath_json(p: &MPath) -> J {
     match &p.predicate {
         Some(e) => json!({"predicate": expr_json(e), "text": p.display()}),
-        None => json!({"steps": steps_json(&p.steps), "text": p.display()}),
+        None => json!({"steps": steps_json(&p.steps), "text": p.display(), "rootless": p.rootless}),
     }
 }
 pub fn mpath_from(j: &J) -> Result<MPath, String> {
     if let Some(e) = j.get("predicate") {
-        Ok(MPath { steps: vec![], predicate: Some(expr_from(e)?) })
+        Ok(MPath { steps: vec![], predicate: Some(expr_from(e)?), rootless: false })
     } else {
-        Ok(MPath { steps: steps_from(&j["steps"])?, predicate: None })
+        Ok(MPath { steps: steps_from(&j["steps"])?, predicate: None, rootless: j["rootless"].as_bool().unwrap_or(false) })
     }
 }
 
@@ -602,6 +606,22 @@ pub fn make_selector(op: &Op) -> Option<jp::Selector<'static>> {
     }
 }
 
+/// Calls another method of the kept selector (`exists` / `predicate_match`) on the document the selection is about to
+/// run on: a caller that asks "is there anything?" before fetching it. The answer is dropped.
+pub fn warm_selector<'b>(op: &Op, args: &'b [Vec<u8>], reuse: Option<&'b jp::Selector<'b>>, warm: u8) {
+    if let (Some(sel), Op::Select { v, .. }) = (reuse, op) {
+        match warm {
+            1 => {
+                let _ = sel.exists(&args[*v]);
+            }
+            2 => {
+                let _ = sel.predicate_match(&args[*v]);
+            }
+            _ => {}
+        }
+    }
+}
+
 /// Like `call`; a `Selector::select` operation is executed on `reuse` when one is given (the same compiled
 /// selector applied to document after document) instead of on a freshly built one.
 pub fn call_with<'b>(op: &Op, args: &'b [Vec<u8>], trees: &[MVal], buf: &mut Vec<u8>, offsets: &mut Vec<u64>, reuse: Option<&'b jp::Selector<'b>>) -> LibOut {
@@ -628,6 +648,16 @@ pub fn call_with<'b>(op: &Op, args: &'b [Vec<u8>], trees: &[MVal], buf: &mut Vec
             w(jsonb::object_pick(&args[*v], &ks, buf))
         }
         Op::StripNulls { v } => w(jsonb::strip_nulls(&args[*v], buf)),
+        // 2 mod 4 items: an iterator that really drops something -- its upper bound is above what it yields (the usual
+        // way to skip NULL arguments)
+        Op::BuildArray { items } if items.len() % 4 == 2 => {
+            let padded: Vec<Option<usize>> = items.iter().flat_map(|i| [None, Some(*i)]).chain([None]).collect();
+            w(jsonb::build_array(padded.iter().filter_map(|i| i.map(|i| args[i].as_slice())), buf))
+        }
+        Op::BuildObject { items } if items.len() % 4 == 2 => {
+            let padded: Vec<Option<&(String, usize)>> = items.iter().flat_map(|kv| [None, Some(kv)]).chain([None]).collect();
+            w(jsonb::build_object(padded.iter().filter_map(|kv| kv.map(|(k, i)| (k.as_str(), args[*i].as_slice()))), buf))
+        }
         // an odd number of items goes through an iterator whose size_hint promises nothing (lower bound 0)
         Op::BuildArray { items } if items.len() % 2 == 1 => w(jsonb::build_array(items.iter().filter(|_| true).map(|i| args[*i].as_slice()), buf)),
         Op::BuildArray { items } => w(jsonb::build_array(items.iter().map(|i| args[*i].as_slice()), buf)),
